@@ -142,6 +142,40 @@ def xmech(work):
     return results
 
 
+def staged(work):
+    """C09, the caller's side: a wrong stage in one reported step must be rejected"""
+    cases = [{"id": 1, "form": "capture", "k": 0, "stages": [[1, 1], [2, 1], [3, 1]], "mode": "probe"},
+             {"id": 2, "form": "cond", "k": 2, "stages": [[1, 1], [2, 1], [2, 1], [3, 1]], "mode": "probe"}]
+    cin, cout = os.path.join(work, "sg.json"), os.path.join(work, "st.json")
+    json.dump(cases, open(cin, "w"))
+    core.run_driver("harness.drivers.staged_driver", [cin, cout])
+    r = core.run_tlc("TraceStaged", "TraceStaged.cfg", env={"TRACE_FILE": cout}, workers=1, timeout=300)
+    results = [("TraceStaged accepts real stepwise histories", not r.tagged("FAIL") and not r.error)]
+    t = json.load(open(cout))
+    t[0]["events"][1][0] = 1                               # the second step reporting the stage of the first
+    t[1]["events"] = t[1]["events"][:1]                    # one of the two steps made at stage 2 not reported
+    json.dump(t, open(cout, "w"))
+    r = core.run_tlc("TraceStaged", "TraceStaged.cfg", env={"TRACE_FILE": cout}, workers=1, timeout=300)
+    got = {(x[1], x[2]) for x in r.tagged("FAIL")}
+    results.append(("TraceStaged rejects a stale caller state and a missing step", got == {(1, "CallerStateAtStep"), (2, "StepsReported")}))
+    return results
+
+
+def stream(work):
+    """C17: an event delivered after a deactivation made inside the call must be rejected"""
+    ops = [["stage", "s1", "accum"], ["act"], ["call", 3], ["calld", 5, "normal", "s2"], ["call", 7]]
+    traces = L.run_histories([{"id": 1, "sel": "wrap", "ops": ops}], work, driver="harness.drivers.stream_driver", par=1)
+    fails, _ = L.validate(traces, work, spec="TraceStream", par=1)
+    results = [("TraceStream accepts a real history with a deactivation inside a call", not fails)]
+    t = copy.deepcopy(traces)
+    for st in t[0]["steps"][3:]:
+        st["stages"]["s2"]["vals"] = [6]                   # the stage attached after the deactivation sees the end event
+    fails, _ = L.validate(t, work, spec="TraceStream", par=1)
+    results.append(("TraceStream rejects an event that reaches a stage attached after the deactivation",
+                    any(r[0]["clause"] == "StageOutput" and r[0]["who"] == "s2" for tag, r in fails.get(1, []) if tag == "FAIL")))
+    return results
+
+
 def main():
     work = core.scratch("selftest-")
     results = []
@@ -152,6 +186,8 @@ def main():
         results += gens(work)
         results += refs(work)
         results += xmech(work)
+        results += staged(work)
+        results += stream(work)
     finally:
         core.cleanup()
     ok = True
